@@ -14,7 +14,19 @@ from ..vlib import core, repo, tlc
 from .. import hist_common as HC
 from .. import replay_normdrop as RN
 
-KINDS = {"determinism", "error", "mode", "stats", "output", "mask"}
+KINDS = {"determinism", "error", "mode", "stats", "output", "input_grad", "mask", "dtype"}
+
+
+def bn_history_runs(ctx, rep, kinds, acts, depth, label):
+    """BatchNorm layer histories for the checks of other properties (C02: input gradients, C06: outputs)."""
+    cfgs = []
+    for batches, nm in ((B2[:1], "2d"), (B3, "3d")):
+        for tr in (True, False):
+            cfgs.append(("%s%s-tr%d" % (label, nm, tr), dict(Layer="bn", Batches=batches, NC=2, Momentum=[Q(1, 2)], Affine=True, Track=tr, Gamma=[Q(2), Q(-1)], Beta=[Q(1), Q(3)],
+                                                            StatsSet=STATS, PDrop=Q(1, 2), Inputs=[], GradsIn=[], MaxHist=depth, Acts=acts)))
+    em = HC.emit_many(rep, "NormDrop", cfgs)
+    for name, (mx, table, c) in em.items():
+        HC.replay_all(ctx, rep, mx, table, dict(c, StatsSet=str(c["StatsSet"])), kinds, RP, "NormDrop", label=name + ":", procs=8)
 RP = ("replay_normdrop", "BNReplayer")
 PROPS = ["EvalFreezesStats", "CounterStepsByOne"]
 
@@ -53,6 +65,11 @@ def run(ctx):
                     consts = dict(Layer="bn", Batches=batches, NC=2, Momentum=mom, Affine=aff, Track=tr, Gamma=[Q(2), Q(-1)], Beta=[Q(1), Q(3)],
                                   StatsSet=STATS, PDrop=Q(1, 2), Inputs=[], GradsIn=[], MaxHist=depth, Acts={"mode", "stats", "fwd"})
                     cfgs.append(("bn%s-mom%s-aff%d-tr%d" % (nm, "N" if not mom else mom[0][1], aff, tr), consts))
+    # input gradients, also for a forward pass whose backward runs after later forwards / mode switches
+    for batches, nm in ((B2[:1], "2d"), (B3, "3d")):
+        for tr in (True, False):
+            cfgs.append(("bnbwd%s-tr%d" % (nm, tr), dict(Layer="bn", Batches=batches, NC=2, Momentum=[Q(1, 2)], Affine=True, Track=tr, Gamma=[Q(2), Q(-1)], Beta=[Q(1), Q(3)],
+                                                       StatsSet=STATS, PDrop=Q(1, 2), Inputs=[], GradsIn=[], MaxHist=depth, Acts={"mode", "fwd", "bnbwd"})))
     for name, consts in cfgs:
         if name.startswith("bn2d") and consts["Affine"] and consts["Track"]:
             HC.model_check(rep, "NormDrop", name + "-mc", consts, [], PROPS, depth=6 if q else 8)
